@@ -12,7 +12,10 @@ class C08(scen.WorldProp):
                 "Wheatley.C08.strike_law",
                 "Wheatley.C08.strike_owner",
                 "Wheatley.C08.at_most_one_strike",
-                "Wheatley.C08.place_advances"]
+                "Wheatley.C08.place_advances",
+                "Wheatley.C08.cli_name"]
+    # the command line: what of the built configuration this property is about
+    cli_fields = ['name']
     level_text = ("theorems: a strike is emitted only for a bell that was Wheatley's when its turn began, at most one "
                   "per place, with the stroke equal both to the view's stroke of that bell and to the row's parity; "
                   "the ownership test is exactly 'unassigned and no name configured, or assigned to a user of the "
